@@ -463,7 +463,7 @@ fn aligned_faults(ctx: &Ctx, rng: &mut Rng, s: &SizeInfo, b: usize, roots: &[usi
 /// Optionally accompanied by real errors so that ghosts + real <= t: the locator is perfectly
 /// consistent, only the range check on the located positions can tell.
 fn ghost_faults(ctx: &Ctx, rng: &mut Rng, s: &SizeInfo, b: usize, faults: &mut Vec<Fault>) -> bool {
-    if !ctx.gf_ok[s.idx] {
+    if !ctx.gf_ok[s.idx] || std::env::var_os("DMSIM_NO_GHOST").is_some() {
         return false;
     }
     let gf = &ctx.gf;
